@@ -106,11 +106,16 @@ def indexing(case, d):
                 o['ref'] = ['ok']
             except Exception as e:
                 o['ref'] = ['exc', type(e).__name__]
-            o['fresh'] = desc(darr.Array(path)[:])
+            try:
+                o['fresh'] = desc(darr.Array(path)[:])
+            except Exception as e:
+                o['fresh'] = dict(error=f'{type(e).__name__}: {e}'[:200])
             o['raw'] = open(os.path.join(path, 'arrayvalues.bin'), 'rb').read().hex()
             o['refall'] = desc(ref)
         if ctx is None:
             o['leak'] = fdcount(path)
+        # whatever the access was, the raw file holds exactly the reference
+        o['rawsame'] = open(os.path.join(path, 'arrayvalues.bin'), 'rb').read() == np.ascontiguousarray(ref).tobytes()
         out.append(o)
     if ctx is not None:
         ctx.__exit__(None, None, None)
